@@ -1,6 +1,9 @@
 package main
 
 import (
+	"runtime"
+	"path/filepath"
+	"encoding/json"
 	"flag"
 	"fmt"
 	"os"
@@ -114,8 +117,35 @@ func main() {
 		if len(os.Args) < 4 {
 			usage()
 		}
-		os.Exit(runCheck(repo, verifDir, os.Args[2], os.Args[3]))
+		os.Exit(safeCheck(repo, verifDir, os.Args[2], os.Args[3]))
 	default:
 		usage()
 	}
+}
+
+// safeCheck: the generator must not die on code it cannot handle. A panic inside the engine (seen only on
+// changed trees whose contracts no longer fit the code) is reported as an undecided obligation of the
+// property - conservatively a violation without a failing input - instead of an exit status that says nothing.
+func safeCheck(repo, verifDir, prop, tier string) (rc int) {
+	defer func() {
+		if r := recover(); r != nil {
+			out := os.Getenv("VERIF_OUT")
+			if out == "" {
+				out = verifDir
+			}
+			dir := filepath.Join(out, "replay", prop)
+			os.MkdirAll(dir, 0o755)
+			path := filepath.Join(dir, "engine_error.json")
+			buf := make([]byte, 16384)
+			buf = buf[:runtime.Stack(buf, false)]
+			doc, _ := json.MarshalIndent(map[string]interface{}{"property": prop, "obligation": "engine#internal-error", "kind": "engine",
+				"clause": "the verification-condition generator handles the code of this tree", "solver": map[string]string{"answer": "undecided", "output": fmt.Sprint(r) + "\n" + string(buf)},
+				"replay": map[string]interface{}{"ran": false, "confirmed": false, "note": "no-failing-input-found: the generator failed on this tree (a contract no longer fits the code it is attached to); the property is undecided, which is reported as a violation"}}, "", " ")
+			os.WriteFile(path, doc, 0o644)
+			fmt.Printf("FAILED engine %s#internal-error [undecided]\n        %v\n", prop, r)
+			fmt.Printf("VIOLATION property=%s replay=%s no-failing-input-found\n", prop, path)
+			rc = 1
+		}
+	}()
+	return runCheck(repo, verifDir, prop, tier)
 }
